@@ -453,7 +453,11 @@ func (x *EvalCtx) index1(n *EIndex) Val {
 		if b.Sl.Off != "0" {
 			abs = ixT(b.Sl.Off, i.S)
 		}
-		return x.s.pureLoad(&Addr{Space: "elem", Ref: b.Sl.Base, Idx: abs, Elem: et, T: et})
+		ev := x.s.pureLoad(&Addr{Space: "elem", Ref: b.Sl.Base, Idx: abs, Elem: et, T: et})
+		if ev.S != "" && !strings.Contains(ev.S, "!q") {
+			x.facts = append(x.facts, x.s.provenanceTerms(b.Sl.Base, ev)...)
+		}
+		return ev
 	case kMap:
 		m := b.T.Underlying().(*types.Map)
 		ks, cs := mapSorts(m)
@@ -463,6 +467,9 @@ func (x *EvalCtx) index1(n *EIndex) Val {
 			terms[j] = sel(sel(arr, b.S), i.S)
 		}
 		v, _ := unflatten(m.Elem(), terms)
+		if v.S != "" && !strings.Contains(v.S, "!q") {
+			x.facts = append(x.facts, x.s.provenanceTerms(b.S, v)...)
+		}
 		return v
 	}
 	return x.fail("cannot index %s", n.X)
